@@ -235,7 +235,7 @@ func (m *manager) Shards() ([]*shard.Shard, error) {
 	if m.onList != nil {
 		m.onList()
 	}
-	if m.spec.ListErr {
+	if m.spec.ListErr || (m.spec.ListErrFrom > 0 && *m.cycle >= m.spec.ListErrFrom) {
 		return nil, fmt.Errorf("scripted: list pods failed")
 	}
 	var out []*shard.Shard
@@ -273,7 +273,14 @@ func (r *replicas) Replicas() ([]shard.Manager, error) {
 	if r.reset != nil {
 		r.reset()
 	}
-	return r.ms, nil
+	var out []shard.Manager
+	for _, m := range r.ms {
+		if sm, ok := m.(*manager); ok && sm.spec.AbsentIn > 0 && sm.spec.AbsentIn == *r.cycle {
+			continue
+		}
+		out = append(out, m)
+	}
+	return out, nil
 }
 
 // one cycle -------------------------------------------------------------------
@@ -350,7 +357,8 @@ func runInBubble(tp *core.Tape, e *core.Env, sc *Scenario, replicaSel []int, out
 	}
 	for _, ri := range replicaSel {
 		// the scripted sidecars mutate their copies when targets are posted: work on a private copy
-		rs := &ReplicaSpec{ListErr: sc.Replicas[ri].ListErr, ScaleErrEarly: sc.Replicas[ri].ScaleErrEarly, ScaleErrFinal: sc.Replicas[ri].ScaleErrFinal}
+		rs := &ReplicaSpec{ListErr: sc.Replicas[ri].ListErr, ScaleErrEarly: sc.Replicas[ri].ScaleErrEarly, ScaleErrFinal: sc.Replicas[ri].ScaleErrFinal,
+			ListErrFrom: sc.Replicas[ri].ListErrFrom, AbsentIn: sc.Replicas[ri].AbsentIn}
 		for _, sh := range sc.Replicas[ri].Shards {
 			c := *sh
 			c.Copies = map[uint64]*Copy{}
